@@ -111,6 +111,9 @@ def _fresh(name, spec):
         return _noop.NoOpModel()
     if name == 'inv':
         return InvModel()
+    if name == 'altconcept':
+        return Model(concept_role=':inst', roles=MINI['roles'], normalizations=MINI['normalizations'],
+                     reifications=[tuple(r) for r in MINI['reifications']])
     return from_spec(spec, name)[0]
 
 
@@ -138,6 +141,14 @@ def _get(name):
         e = (name, m, RefModel(noop=True, name=name), None)
     elif name == 'inv':
         e = (name, InvModel(), RefInvModel(name=name), None)
+    elif name == 'altconcept':
+        # a table that names another concept role; graphs keep using ':instance' (the library's
+        # graph structure does not depend on the model), so the reference keeps it as well
+        m = Model(concept_role=':inst', roles=MINI['roles'], normalizations=MINI['normalizations'],
+                  reifications=[tuple(r) for r in MINI['reifications']])
+        rm = RefModel(roles=list(MINI['roles']) + [':inst'], normalizations=MINI['normalizations'],
+                      reifications=MINI['reifications'], name=name)
+        e = (name, m, rm, None)
     elif name == 'mini':
         m, rm = from_spec(MINI, name)
         e = (name, m, rm, MINI)
